@@ -25,7 +25,22 @@ def check_hooks(ns, diffx, data):
         pass
 
     class MyWriter(ns.DiffXWriter):
-        pass
+        # a subclass that forwards everything, as a logging or filtering
+        # writer would
+        def new_change(self, *args, **kwargs):
+            return ns.DiffXWriter.new_change(self, *args, **kwargs)
+
+        def new_file(self, *args, **kwargs):
+            return ns.DiffXWriter.new_file(self, *args, **kwargs)
+
+        def write_preamble(self, *args, **kwargs):
+            return ns.DiffXWriter.write_preamble(self, *args, **kwargs)
+
+        def write_meta(self, *args, **kwargs):
+            return ns.DiffXWriter.write_meta(self, *args, **kwargs)
+
+        def write_diff(self, *args, **kwargs):
+            return ns.DiffXWriter.write_diff(self, *args, **kwargs)
 
     class MyDOMReader(ns.DiffXDOMReader):
         reader_cls = MyReader
